@@ -406,42 +406,42 @@ package agent
 //@   props C07 C08 C19 C02
 //@   nopanic
 //@   noinv
-//@   ensures[C07,C02] result == brank(first, second)
+//@   ensures[C07,C02,C08] result == brank(first, second)
 //@ func (*collator_).rankBytes
 //@   props C07 C08 C19 C02
 //@   nopanic
 //@   noinv
-//@   ensures[C07,C02] result == irank(first, second)
+//@   ensures[C07,C02,C08] result == irank(first, second)
 //@ func (*collator_).rankRunes
 //@   props C07 C08 C19 C02
 //@   nopanic
 //@   noinv
-//@   ensures[C07,C02] result == irank(first, second)
+//@   ensures[C07,C02,C08] result == irank(first, second)
 //@ func (*collator_).rankSigned
 //@   props C07 C08 C19 C02
 //@   nopanic
 //@   noinv
-//@   ensures[C07,C02] result == irank(first, second)
+//@   ensures[C07,C02,C08] result == irank(first, second)
 //@ func (*collator_).rankUnsigned
 //@   props C07 C08 C19 C02
 //@   nopanic
 //@   noinv
-//@   ensures[C07,C02] result == irank(first, second)
+//@   ensures[C07,C02,C08] result == irank(first, second)
 //@ func (*collator_).rankFloats
 //@   props C07 C08 C19 C02
 //@   nopanic
 //@   noinv
-//@   ensures[C07,C02] result == frank(first, second)
+//@   ensures[C07,C02,C08] result == frank(first, second)
 //@ func (*collator_).rankComplex
 //@   props C07 C08 C19 C02
 //@   nopanic
 //@   noinv
-//@   ensures[C07,C02] result == crank(first, second)
+//@   ensures[C07,C02,C08] result == crank(first, second)
 //@ func (*collator_).rankStrings
 //@   props C07 C08 C19 C02
 //@   nopanic
 //@   noinv
-//@   ensures[C07,C02] result == srank(first, second)
+//@   ensures[C07,C02,C08] result == srank(first, second)
 
 // the natural rank of each primitive kind is a total preorder that agrees with Go's ==
 //@ lemma[C07] brank_preorder: forall a Bool, b Bool, c Bool :: brank(a, a) == 1 && brank(a, b) == 2 - brank(b, a) && (brank(a, b) <= 1 && brank(b, c) <= 1 ==> brank(a, c) <= 1)
@@ -591,9 +591,17 @@ package agent
 //@   loop 1:
 //@     invariant 0 <= index && this.depth_ == old(this.depth_) && this.depth_ < this.maximum_
 //@     decreases count - index
+// Go interface equality on two reflected integers (assumed semantics of reflect.Value.Interface and ==): same dynamic
+// type and same number. CompareValues on intrinsics is this equality; RankValues converts both operands to 64 bits.
+//@ define sintkind(k) := 2 <= k && k <= 6
+//@ define uintkind(k) := 7 <= k && k <= 11
+//@ axiom riface_sint_eq: forall a U, b U :: { riface(a), riface(b) } sintkind(rkind(a)) && sintkind(rkind(b)) ==> ((riface(a) == riface(b)) <==> (rtype(a) == rtype(b) && rint(a) == rint(b)))
+//@ axiom riface_uint_eq: forall a U, b U :: { riface(a), riface(b) } uintkind(rkind(a)) && uintkind(rkind(b)) ==> ((riface(a) == riface(b)) <==> (rtype(a) == rtype(b) && ruint(a) == ruint(b)))
 //@ func (*collator_).compareIntrinsics
 //@   props C08 C19
 //@   ensures[C08] this.depth_ == old(this.depth_)
+//@   checks[C08] sintkind(rkind(first)) && sintkind(rkind(second)) ==> (result <==> irank(rint(first), rint(second)) == 1)
+//@   checks[C08] uintkind(rkind(first)) && uintkind(rkind(second)) ==> (result <==> irank(ruint(first), ruint(second)) == 1)
 //@ func (*collator_).CompareValues
 //@   props C08 C19
 //@   modifies this.depth_, cstate(this)
